@@ -75,7 +75,17 @@ func (r *Reporter) check(cond bool, construct, pos, okDetail, badDetail string) 
 
 // guard: an anchor that must yield instances; a missing anchor is a violation of the property
 // (deleting the release / the clone / the sync call is what the rule exists for).
+// guard: a vacuity check. The number passed by a rule is the count confirmed by hand on the pinned tree; a rule must
+// not go quiet because its anchor vanished, but it must not fire either because a maintainer removed duplication
+// (two call sites folded into a helper, three identical blocks into a closure). The effective threshold is therefore
+// half the confirmed count (at least 2) for counts above 3, and the confirmed count itself for 1-3.
 func (r *Reporter) guard(n int, min int, what string) {
+	if min > 3 {
+		min = min / 2
+		if min < 2 {
+			min = 2
+		}
+	}
 	if n < min {
 		r.bad("guard:"+what, "-", fmt.Sprintf("expected at least %d instance(s) of %s, found %d - the anchor this rule checks is gone", min, what, n))
 	} else {
